@@ -59,9 +59,17 @@ def check_same_source(ctx, F):
         # order: the chunker yields the most significant chunk first; everything that emits chunks (appends them to bulk,
         # chains them behind bulk's words) must emit the least significant first, i.e. consume `.rev()` of it
         emitters = []
+        # loops whose body writes words (a loop that only reads, e.g. one that takes words back after a failed write, emits nothing)
+        writer_heads = set()
         for r in paths or []:
-            writes_in_loop = any(e['kind'] == 'call' and e['callee'].endswith('WriteWords::write') and e.get('loops') for e in r.events)
+            if r.end != 'backedge':
+                continue
+            les = [(i, e) for i, e in enumerate(r.events) if e['kind'] == 'loop_enter']
+            if les and any(e['kind'] == 'call' and e['callee'].endswith('WriteWords::write') for e in r.events[les[-1][0]:]):
+                writer_heads.add(les[-1][1]['head'])
+        for r in paths or []:
             for e in r.events:
+                writes_in_loop = e['kind'] == 'loop_enter' and e['head'] in writer_heads
                 if e['kind'] == 'call' and e['callee'].endswith(('WriteWords::extend_from_iter', 'Iterator::chain')) and len(e.get('args_val') or e['args']) >= 2:
                     emitters.append((e['callee'].rsplit('::', 1)[-1], (e.get('args_val') or e['args'])[1], e.get('span', '')))
                 if e['kind'] == 'loop_enter' and writes_in_loop:
@@ -230,6 +238,46 @@ def check_export_conversions(ctx, F):
         ctx.unresolved('R7', role, ANS, 'no From<AnsCoder> for Vec conversion found', key='R7/export-conversion/floor')
 
 
+def check_binary_importers_shared(ctx, F):
+    """Every public way to load raw binary data into an ANS coder goes through the one import loop (from_binary): it is that
+    loop which places the marker bit directly above the words actually read and fills the state in the order the exporter
+    emits.  A convenience constructor that assembles the state by hand bakes in a particular State/Word ratio or a full buffer
+    (phantom zero words for short data, swapped words for wide states)."""
+    fb, _ri = anchors.ans_import_loops(F)
+    role = 'a raw-binary constructor loads the data through the shared import loop'
+    if fb is None:
+        return
+    n = 0
+    for b in F.bodies:
+        if b.promoted is not None or b.dk != 'AssocFn' or b.self_adt != ANS or b.vis != 'pub' or '::tests::' in b.defpath or b.impl_trait is not None:
+            continue
+        kind = 'binary' if 'binary' in (b.name or '') else ('compressed' if 'compressed' in (b.name or '') else None)
+        target = fb if kind == 'binary' else _ri
+        if kind is None or target is None or not b.name.startswith('from_') or b.defpath == target.defpath:
+            continue
+        n += 1
+        ctx.touch(b)
+        seen, frontier, found = set(), [b], False
+        for _ in range(3):
+            nxt = []
+            for x in frontier:
+                for cb, blk, t in anchors.local_callees(F, x):
+                    if cb.defpath == target.defpath:
+                        found = True
+                    if cb.defpath not in seen:
+                        seen.add(cb.defpath)
+                        nxt.append(cb)
+            frontier = nxt
+        key = 'R7/binary-importer/' + b.defpath
+        if found:
+            ctx.ok('R7', role, b.defpath, 'reaches the shared %s import loop' % kind, key=key)
+        else:
+            ctx.bad('R7', role, b.defpath, 'the constructor builds the coder without the shared import loop (it calls %s): the marker position and the word order of the state are then its own, and differ from what from_binary() and the exporters use for short data or for State wider than two Words' % (
+                ', '.join(sorted(x.rsplit('::', 1)[-1] for x in seen)) or 'nothing'), key=key, loc=rules.loc(b))
+    if n < 2:
+        ctx.unresolved('R7', role, ANS, 'only %d convenience constructors for raw binary data found' % n, key='R7/binary-importer/floor')
+
+
 def check_marker_pairing(ctx, F):
     fb = c08.get_body(F, [ANS + '::<', '::from_binary'], 'from_binary')
     key = 'R5/marker-pushed/' + ANS
@@ -372,6 +420,7 @@ def run(ctx):
     F = ctx.F
     check_same_source(ctx, F)
     check_export_conversions(ctx, F)
+    check_binary_importers_shared(ctx, F)
     check_no_hand_rolled_chunking(ctx, F)
     check_marker_pairing(ctx, F)
     check_refill_threshold(ctx, F)
